@@ -102,11 +102,11 @@ theorem compDispLoop_count_noVeto (L : List Int) (rs : List Nat) (acc : List (Op
         cases h : setdiff (uniqueLabels L) (acc.filterMap id) with
         | nil => rfl
         | cons a as => rw [h] at hcand; simp at hcand
-      have hmono := compDispLoop_count rs (acc ++ [none]) s (fun r' h' => hrs r' (by simp [h']))
       -- the displaced list only grows
-      have hsub : ∀ x ∈ acc.filterMap id, x ∈ (compDispLoop rs (acc ++ [none]) s).1.filterMap id := by
+      have hsub : ∀ x ∈ acc.filterMap id,
+          x ∈ (compDispLoop rs (acc ++ [none]) (s.setObj r { s.obj r with toDisplace := none })).1.filterMap id := by
         intro x hx
-        exact compDispLoop_acc_sub rs (acc ++ [none]) s x (by
+        exact compDispLoop_acc_sub rs (acc ++ [none]) _ x (by
           have : some x ∈ acc := by simpa using hx
           simp [this])
       exact setdiff_nil_mono _ _ _ hnil hsub
